@@ -53,6 +53,7 @@ import (
 	schedulerconfig "github.com/koordinator-sh/koordinator/pkg/scheduler/apis/config"
 	"github.com/koordinator-sh/koordinator/pkg/scheduler/frameworkext/hinter"
 	"github.com/koordinator-sh/koordinator/pkg/scheduler/frameworkext/schedulingphase"
+	"github.com/koordinator-sh/koordinator/pkg/scheduler/frameworkext/topologymanager"
 	"github.com/koordinator-sh/koordinator/pkg/util/bitmask"
 	kit "github.com/koordinator-sh/koordinator/pkg/verifkit"
 )
@@ -123,6 +124,7 @@ type c07Dev struct {
 	health  bool
 	present bool
 	numa    int32
+	socket  int32
 	pcie    string
 	vfs     int
 	label   string // device label grp=<label>
@@ -162,6 +164,9 @@ type c07Node struct {
 	table      map[int][][]int
 	mixedScore map[int]bool
 	tableJSON  string
+	// machine layout: number of NUMA nodes and how many of them share a CPU socket (1: NUMA id == socket id;
+	// 2: sub-NUMA clustering / NPS2, NUMA 0,1 on socket 0, NUMA 2,3 on socket 1)
+	numaCount, numaPerSocket int
 }
 
 type c07Key struct {
@@ -205,8 +210,13 @@ func c07GenNode(r *kit.Rand, name string, memBytes, memResize, partitioned bool)
 	// NPU node: the "GPUs" are Huawei Ascend cards (no gpu-core; npu-core / npu-cpu / npu-dvpp instead)
 	n.npu = !partitioned && ngpu > 0 && r.Pct(6)
 	hetero := r.Pct(15) // GPUs of different memory sizes on one node
+	n.numaCount = kit.Pick(r, []int{2, 2, 2, 4})
+	n.numaPerSocket = kit.Pick(r, []int{1, 1, 2})
 	add := func(t schedulingv1alpha1.DeviceType, cnt int, firstMinor int32, res func() corev1.ResourceList) {
-		half := (cnt + 1) / 2
+		half := (cnt + n.numaCount - 1) / n.numaCount
+		if half < 1 {
+			half = 1
+		}
 		// minor numbering: contiguous (mostly), starting above 0, or with holes (cards removed / renumbered)
 		scheme := 0
 		if n.part == "" {
@@ -225,6 +235,7 @@ func c07GenNode(r *kit.Rand, name string, memBytes, memResize, partitioned bool)
 			d.base = res()
 			d.res = d.base.DeepCopy()
 			d.numa = int32(i / half)
+			d.socket = d.numa / int32(n.numaPerSocket)
 			d.pcie = fmt.Sprintf("%d-%d", d.numa, (i%half)/2)
 			if t == c07RDMA && n.vf {
 				d.vfs = r.Range(1, 3)
@@ -353,7 +364,7 @@ func (n *c07Node) buildCR() *schedulingv1alpha1.Device {
 			info.Minor = nil
 		}
 		if n.topo {
-			info.Topology = &schedulingv1alpha1.DeviceTopology{SocketID: d.numa, NodeID: d.numa, PCIEID: d.pcie, BusID: fmt.Sprintf("0000:%02x:00.0", 16+int(d.minor))}
+			info.Topology = &schedulingv1alpha1.DeviceTopology{SocketID: d.socket, NodeID: d.numa, PCIEID: d.pcie, BusID: fmt.Sprintf("0000:%02x:00.0", 16+int(d.minor))}
 		}
 		if d.vfs > 0 {
 			g := schedulingv1alpha1.VirtualFunctionGroup{Labels: map[string]string{"type": "general"}}
@@ -421,7 +432,11 @@ func c07RL(rl corev1.ResourceList) string {
 		if i := strings.LastIndex(k, "/"); i >= 0 {
 			short = k[i+1:]
 		}
-		parts = append(parts, fmt.Sprintf("%s=%d", short, q.Value()))
+		if q.MilliValue()%1000 != 0 {
+			parts = append(parts, fmt.Sprintf("%s=%dm", short, q.MilliValue()))
+		} else {
+			parts = append(parts, fmt.Sprintf("%s=%d", short, q.Value()))
+		}
 	}
 	return "{" + strings.Join(parts, ",") + "}"
 }
@@ -720,7 +735,19 @@ func c07DefaultShape(r *kit.Rand, t schedulingv1alpha1.DeviceType, name corev1.R
 		w.count, w.per = int(k), corev1.ResourceList{name: c07Q(100)}
 		return
 	}
+	if r.Pct(22) {
+		// a share that is not a whole number of percent (devices shared in eighths, thousandths ...)
+		m := int64(kit.Pick(r, []int{12500, 12500, 37500, 62500, 87500, 500, 99500, 33333, 1, 250}))
+		q := *resource.NewMilliQuantity(m, resource.DecimalSI)
+		sh.class += string(t) + "-milli"
+		sh.requests[name] = q
+		w.per = corev1.ResourceList{name: q}
+		return
+	}
 	p := c07Pct(r)
+	if r.Pct(25) {
+		p = int64(kit.Pick(r, []int{13, 38, 63, 88, 1, 100})) // just above what is left beside shares in eighths
+	}
 	sh.class += string(t) + "-frac"
 	sh.requests[name] = c07Q(p)
 	w.per = corev1.ResourceList{name: c07Q(p)}
@@ -1493,6 +1520,38 @@ func TestVerifC07Ledger(t *testing.T) {
 					return "pod-add"
 				}
 			}
+			// numaAffinity draws a NUMA affinity (one node, sometimes two) and narrows the allowed devices to those on it
+			numaAffinity := func(n *c07Node, sh *c07Shape, restrict *map[schedulingv1alpha1.DeviceType]sets.Int) bitmask.BitMask {
+				numas := []int{r.Intn(n.numaCount)}
+				if r.Pct(30) {
+					if o := r.Intn(n.numaCount); o != numas[0] {
+						numas = append(numas, o)
+					}
+				}
+				mask, _ := bitmask.NewBitMask(numas...)
+				bySelector := *restrict
+				out := map[schedulingv1alpha1.DeviceType]sets.Int{}
+				for t := range sh.want {
+					allowed := sets.NewInt()
+					for _, d := range n.devsOf(t) {
+						for _, x := range numas {
+							if int(d.numa) == x {
+								allowed.Insert(int(d.minor))
+							}
+						}
+					}
+					if prev, ok := bySelector[t]; ok {
+						allowed = allowed.Intersection(prev)
+					}
+					out[t] = allowed
+				}
+				*restrict = out
+				c.Count("allocations_with_numa_affinity", 1)
+				if n.numaPerSocket > 1 {
+					c.Count("allocations_with_numa_affinity_where_numa_id_differs_from_socket_id", 1)
+				}
+				return mask
+			}
 			allocate = func(p *c07Pod, restart bool, on *c07Node) {
 				n := on
 				if n == nil {
@@ -1549,6 +1608,15 @@ func TestVerifC07Ledger(t *testing.T) {
 							}
 							nd.lock.RUnlock()
 						}
+					}
+					if designated == nil && n.topo && sh.joint == nil && r.Pct(10) {
+						// the pod is scheduled with a NUMA topology policy: the topology manager left its affinity for the node
+						// in the cycle state; Reserve may only use devices of these NUMA nodes
+						topologymanager.InitStore(cs)
+						topologymanager.GetStore(cs).SetAffinity(n.name, topologymanager.NUMATopologyHint{NUMANodeAffinity: numaAffinity(n, sh, &restrict)})
+						sh.plain = false
+						sh.class += "@numa"
+						path += "-numa"
 					}
 					if _, st := pl.PreFilter(ctx, cs, p.unassigned, nil); !st.IsSuccess() {
 						c.Harness("PreFilter rejected the generated request %s %s: %v", sh.class, c07RL(sh.requests), st.Message())
@@ -1646,22 +1714,7 @@ func TestVerifC07Ledger(t *testing.T) {
 					if required == nil && n.topo && sh.want[c07GPU] != nil && sh.joint == nil && r.Pct(12) {
 						// NUMA affinity of the scheduling cycle (what Plugin.allocate takes from the topology manager's
 						// store): only devices on the chosen NUMA node may be used, for every requested type
-						numa := r.Intn(2)
-						al.numaNodes, _ = bitmask.NewBitMask(numa)
-						bySelector := restrict
-						restrict = map[schedulingv1alpha1.DeviceType]sets.Int{}
-						for t := range sh.want {
-							allowed := sets.NewInt()
-							for _, d := range n.devsOf(t) {
-								if int(d.numa) == numa {
-									allowed.Insert(int(d.minor))
-								}
-							}
-							if prev, ok := bySelector[t]; ok {
-								allowed = allowed.Intersection(prev)
-							}
-							restrict[t] = allowed
-						}
+						al.numaNodes = numaAffinity(n, sh, &restrict)
 						sh.plain = false
 						sh.class += "@numa"
 						path = "direct-numa"
@@ -1778,6 +1831,9 @@ func TestVerifC07Ledger(t *testing.T) {
 					}
 				}
 				c.Count("allocate_"+countPath, 1)
+				if strings.Contains(sh.class, "-milli") {
+					c.Count("allocations_asking_for_fractional_amounts", 1)
+				}
 
 				// checkGrant: what a successful allocation must look like (success direction of the statement)
 				checkGrant := func(allocs apiext.DeviceAllocations) {
@@ -1979,7 +2035,39 @@ func TestVerifC07Ledger(t *testing.T) {
 					if p == nil {
 						continue
 					}
-					if p.cs != nil {
+					if p.cs != nil && r.Pct(60) {
+						// the binding cycle: PreBind writes the allocation into the pod. It reads the node's Device object from
+						// the Device lister; if the object was deleted after Reserve (its delete event reached the cache:
+						// inventory invalid), PreBind fails and the framework calls Unreserve. Otherwise the pod goes on to be bound.
+						n := p.node
+						if n.crLive && r.Pct(35) {
+							cache.onDeviceDelete(n.lastCR.DeepCopy())
+							n.crLive = false
+							c.Op("inventory %s: Device object deleted (between Reserve and PreBind of %s)", n.name, p.key())
+							checkAll("device delete before PreBind")
+						}
+						idx := pl.handle.KoordinatorSharedInformerFactory().Scheduling().V1alpha1().Devices().Informer().GetIndexer()
+						if n.crLive {
+							_ = idx.Add(n.lastCR.DeepCopy())
+						}
+						obj := p.unassigned.DeepCopy()
+						st := pl.PreBind(ctx, p.cs, obj, n.name)
+						if n.crLive {
+							_ = idx.Delete(n.lastCR)
+						}
+						c.Count("op_prebind", 1)
+						if st.IsSuccess() {
+							c.Op("prebind %s on %s -> ok", p.key(), n.name)
+							c.Count("prebind_ok", 1)
+							c.Seen("prebind", true, invClass(n))
+							checkAll("prebind " + p.key())
+							continue
+						}
+						c.Count("prebind_failed_device_object_missing", 1)
+						pl.Unreserve(ctx, p.cs, p.unassigned, n.name)
+						c.Op("prebind %s on %s failed (%s); unreserve (Plugin.Unreserve)", p.key(), n.name, st.Message())
+						c.Seen("prebind", false, invClass(n))
+					} else if p.cs != nil {
 						pl.Unreserve(ctx, p.cs, p.unassigned, p.node.name)
 						c.Op("unreserve %s on %s (Plugin.Unreserve)", p.key(), p.node.name)
 					} else if r.Bool() {
